@@ -233,7 +233,7 @@ pub fn worker_c14(shard: usize, nshards: usize, seed: u64, tier: &str, out: &mut
     let mut rng = Rng::new(seed, 0xE000 + shard as u64);
     let nrandom = match tier {
         "thorough" => 500,
-        _ => 14,
+        _ => 40,
     };
     let wd = Duration::from_secs(20);
     let directed = directed_scripts(&corpus, &mut rng);
@@ -556,7 +556,7 @@ pub fn worker_c13(shard: usize, _nshards: usize, seed: u64, tier: &str, out: &mu
     let mut rng = Rng::new(seed, 0xD000 + shard as u64);
     let n = match tier {
         "thorough" => 3200,
-        _ => 160,
+        _ => 400,
     };
     let mut sess: Option<Session> = None;
     let mut sess_chk: Option<Session> = None;
@@ -1222,7 +1222,7 @@ pub fn worker_c19(shard: usize, _nshards: usize, seed: u64, tier: &str, out: &mu
     let mut rng = Rng::new(seed, 0x1900 + shard as u64);
     let n = match tier {
         "thorough" => 40,
-        _ => 3,
+        _ => 6,
     };
     let have = |p: &str| std::path::Path::new(p).exists();
     for i in 0..n {
